@@ -837,6 +837,24 @@ func (m *Machine) classifyReturnT(p *Path, a *absEval, env *Env) Exit {
 				return ex
 			}
 		}
+		// a typed failure value made on this path: &SyntaxError{…} (possibly converted to error) is never nil
+		{
+			t := p.Vals[2]
+			if cv, ok := t.(TConv); ok {
+				t = cv.X
+			}
+			if ad, ok := t.(TAddr); ok {
+				if lit, ok := ad.X.(TLit); ok {
+					ex.Kind = "ERR"
+					for _, el := range lit.Elts {
+						if s, ok := isConstStringTerm(el); ok {
+							ex.Note = s
+						}
+					}
+					return ex
+				}
+			}
+		}
 		ex.Kind, ex.Note = "BADRET", "error result not provably non-nil"
 	case !firstNil && thirdNil:
 		cur, ok := p.Env[m.contV]
